@@ -244,6 +244,61 @@ func main() {
 			}
 		}
 	}
+	// Focus suite: a two-key writer spanning two regions against readers that read both keys in either
+	// order, with two preemptions: the shape in which a commit timestamp that ignores part of the prewrite
+	// answers (min-commit-ts of a secondary batch, a pushed min-commit-ts) tears a reader's snapshot.
+	{
+		wr := []prog{}
+		rd := []prog{}
+		for _, p := range programs(optSteps(), 2) {
+			switch p.name {
+			case "set(a);set(b)":
+				wr = append(wr, p)
+			case "set(b);set(a)", "get(a);get(b)", "iter[,c)":
+				if run.Thorough() {
+					if p.name == "set(b);set(a)" {
+						wr = append(wr, p)
+					} else {
+						rd = append(rd, p)
+					}
+				}
+			case "bget(a,b)", "get(b);get(a)":
+				rd = append(rd, p)
+			}
+		}
+		for _, bk := range common.BackendsTier(run.Thorough()) {
+			for _, m := range bk.Modes {
+				if m.Pessimistic || (!run.Thorough() && m.OnePC) {
+					continue
+				}
+				for _, w := range wr {
+					for _, r := range rd {
+						bk, m, w, r := bk, m, w, r
+						name := fmt.Sprintf("%s/split@b/%s/P2/focus: %s || %s", bk.Name, m, w.name, r.name)
+						mk := func() *txnh.TxnScenario {
+							sc := &txnh.TxnScenario{ID: name, NewBackend: func() txnh.Backend { return bk.New([]string{"b"}) }, Keys: keys,
+								Progs: [][]txnh.Program{{{Mode: m, Ops: w.ops}}, {{Mode: txnh.Mode{}, Ops: r.ops}}}}
+							sc.SetupFn = func(s *txnh.TxnScenario) { common.SeedKey(s, "a", "base", "b", "base") }
+							sc.CheckFn = func(s *txnh.TxnScenario, x *sched.Exec) []sched.Violation {
+								t := txnh.ReadTruth(s.W.B, s.Keys)
+								t.Splits, t.Log = []string{"b"}, s.W.Log()
+								return txnh.AuditSI(s.H, t)
+							}
+							return sc
+						}
+						specs[name] = mk()
+						jobs = append(jobs, sched.Job{Name: name, Run: func(dl time.Time) sched.Report {
+							sc := mk()
+							x := &sched.Explorer{Sc: sc, B: sched.Bounds{P: 2, F: 0, Horizon: 400, EarlyTimers: true, Deadline: dl}}
+							x.Outcome = func(*sched.Exec) string { return sc.OutcomeString() }
+							return x.Explore(false)
+						}})
+					}
+				}
+			}
+		}
+		suiteDesc = append(suiteDesc, "focus: two-key writer x both-key readers, split@b, all optimistic modes, P=2")
+	}
 	if common.HandleReplay(run, jobs, func(name string) sched.Scenario {
 		if s, ok := specs[name]; ok {
 			return s
